@@ -35,6 +35,9 @@ var rules = map[string]string{
 	"C13": "schedules of Acquire / next-system-call / Release / Die events of 2-4 openers of one directory, executed with real system calls (goroutines parked at the yield points between open, flock, fstat/stat, write, unlink, close) and on the extracted Coq model; after every event: who holds the lock, what each finished attempt reported (fresh / existing / locked), whether the lock path exists and is marked; fixed corpus: the historical two-holder interleaving and the flag races",
 	"C07": "2-7 goroutines issuing Put/Delete/Get/GetAppend/Has on 2-5 keys with Compact (held at its yield points), Sync, Count, Items, Backup, FileSize in the background; per-key call/return histories checked for linearizability against a register-with-delete specification (porcupine); Count against its bound",
 	"C10": "the same workload on fs.OSMMap, fs.OS and the harness file system with Close racing with everything in every second run, SetPanicOnFault, progress watchdog, goroutine dump after Close; run again under the race detector (pgh-race)",
+	"C14": "60-160 API calls on fs.OSMMap / fs.OS / fs.Mem keeping every slice returned by Get, GetAppend and Next together with a private copy, scribbling over argument slices after each call; then overwrite all, Compact, delete all, Compact (the segments the values were read from are removed and unmapped), Close; all kept slices re-read under SetPanicOnFault",
+	"C18": "golden directories written by the pinned version (growth, rollover+deletes, compaction, chains; clean and unclean) opened by the current build on fs.OS and fs.OSMMap: contents and Count compared, then used, closed and reopened; their segment files decoded by the independent reader and by the Coq reader; encodeRecord and the hash function compared with the model on random inputs",
+	"C19": "database + a 6-byte record header (all corners key size 0/1/65535 x value size 0/1/2^20/2^29/2^31-1 x both types, then random) + 0/3/4096 further bytes appended to a segment; runtime.MemStats.TotalAlloc of the recovering Open must stay below 16 x the bytes on disk + 4 MiB; contents as C08",
 	"C08": "database + one of 8 kinds of damaged tail appended to a random segment (zeroes, strict prefix, bit flip in key/value/crc, garbage, valid-after-damaged, complete unacknowledged record, flip in length fields, huge claimed sizes); recovering Open compared with an independent decoder of the documented format and with the Coq reader",
 }
 
@@ -45,6 +48,9 @@ var specialGens = map[string]func(r *rng, tier string, res *Result){
 	"C13": genC13,
 	"C07": genC07,
 	"C10": genC10,
+	"C14": genC14,
+	"C18": genC18,
+	"C19": genC19,
 }
 
 func runCheck(args []string) int {
